@@ -146,6 +146,9 @@ func (c *IAMCache) CreateAccount(account Account) error {
 		Access: strings.Clone(account.Access),
 		Secret: strings.Clone(account.Secret),
 		Role:   Role(strings.Clone(string(account.Role))),
+		// the ids are part of the account the request was acknowledged with
+		UserID:  account.UserID,
+		GroupID: account.GroupID,
 	}
 
 	c.iamcache.set(acct.Access, acct)
